@@ -61,6 +61,11 @@ class Validator(SchemaVisitor[ValidationResult]):
     def make_validation_result(self) -> ValidationResult:
         return self._validation_result_factory()
 
+    def _copy_path(self, path: PathHolder) -> PathHolder:
+        # the operands of a path (keys, indexes) belong to the validated value:
+        # the copy shares them instead of copying them
+        return deepcopy(path, {id(x.operand): x.operand for x in path})
+
     def make_path(self) -> PathHolder:
         return self._path_holder_factory()
 
@@ -91,7 +96,7 @@ class Validator(SchemaVisitor[ValidationResult]):
                 errors.append(MissingElementValidationError(path, value, real_index))
                 break
             else:
-                nested_path = deepcopy(path)[real_index]
+                nested_path = self._copy_path(path)[real_index]
                 res = element_schema.__accept__(self, value=val, path=nested_path, **kwargs)
                 errors += res.get_errors()
         return errors
@@ -264,7 +269,7 @@ class Validator(SchemaVisitor[ValidationResult]):
         if schema.props.type is not Nil:
             type_schema = schema.props.type
             for index, elem in enumerate(value):
-                nested_path = deepcopy(path)[index]
+                nested_path = self._copy_path(path)[index]
                 res = type_schema.__accept__(self, value=elem, path=nested_path, **kwargs)
                 result.add_errors(res.get_errors())
             return result
@@ -320,7 +325,7 @@ class Validator(SchemaVisitor[ValidationResult]):
             if is_ellipsis(key):
                 continue
             if key in value:
-                nested_path = deepcopy(path)[key]
+                nested_path = self._copy_path(path)[key]
                 res = val.__accept__(self, value=value[key], path=nested_path, **kwargs)
                 result.add_errors(res.get_errors())
             else:
